@@ -123,6 +123,10 @@ impl Trace for ClassAttributes {
 #[derive(Debug, Clone, Copy)]
 pub struct TryAttributes {
   scope_depth: usize,
+
+  /// How many try blocks are open in the current
+  /// function this one included
+  open: usize,
 }
 
 #[derive(Debug, Clone, Copy)]
@@ -130,6 +134,9 @@ pub struct LoopAttributes {
   scope_depth: usize,
   start: Label,
   end: Label,
+
+  /// How many try blocks were open when this loop was entered
+  open_tries: usize,
 }
 
 #[derive(Default)]
@@ -448,11 +455,16 @@ impl<'a, 'src: 'a> Compiler<'a, 'src> {
       _ => self.emit_byte(SymbolicByteCode::Nil, line),
     }
 
-    if self.try_attributes.is_some() {
+    for _ in 0..self.open_tries() {
       self.emit_byte(SymbolicByteCode::PopHandler, line);
     }
 
     self.emit_byte(SymbolicByteCode::Return, line);
+  }
+
+  /// How many try blocks are currently open in this function
+  fn open_tries(&self) -> usize {
+    self.try_attributes.map_or(0, |attributes| attributes.open)
   }
 
   fn loop_scope(
@@ -468,6 +480,7 @@ impl<'a, 'src: 'a> Compiler<'a, 'src> {
       scope_depth: self.scope_depth,
       start,
       end,
+      open_tries: self.open_tries(),
     };
     let enclosing_loop = self.loop_attributes.replace(loop_attributes);
 
@@ -1594,7 +1607,7 @@ impl<'a, 'src: 'a> Compiler<'a, 'src> {
       Some(v) => {
         self.expr(v);
 
-        if self.try_attributes.is_some() {
+        for _ in 0..self.open_tries() {
           self.emit_byte(SymbolicByteCode::PopHandler, v.end());
         }
 
@@ -1613,12 +1626,10 @@ impl<'a, 'src: 'a> Compiler<'a, 'src> {
     let new_local_count = self.drop_local_count(loop_attributes.scope_depth);
     self.drop_locals(continue_.end(), new_local_count);
 
-    // if our try catch is inside this loop
-    // a break will jump outside of it so we need to pop the handler
-    if let Some(try_attributes) = self.try_attributes {
-      if try_attributes.scope_depth > loop_attributes.scope_depth {
-        self.emit_byte(SymbolicByteCode::PopHandler, continue_.start());
-      }
+    // every try catch opened inside this loop is left by
+    // the jump so we need to pop each of their handlers
+    for _ in loop_attributes.open_tries..self.open_tries() {
+      self.emit_byte(SymbolicByteCode::PopHandler, continue_.start());
     }
 
     self.emit_byte(
@@ -1636,12 +1647,10 @@ impl<'a, 'src: 'a> Compiler<'a, 'src> {
     let new_local_count = self.drop_local_count(loop_attributes.scope_depth);
     self.drop_locals(break_.end(), new_local_count);
 
-    // if our try catch is inside this loop
-    // a break will jump outside of it so we need to pop the handler
-    if let Some(try_attributes) = self.try_attributes {
-      if try_attributes.scope_depth > loop_attributes.scope_depth {
-        self.emit_byte(SymbolicByteCode::PopHandler, break_.start());
-      }
+    // every try catch opened inside this loop is left by
+    // the jump so we need to pop each of their handlers
+    for _ in loop_attributes.open_tries..self.open_tries() {
+      self.emit_byte(SymbolicByteCode::PopHandler, break_.start());
     }
 
     self.emit_byte(SymbolicByteCode::Jump(loop_attributes.end), break_.start());
@@ -1652,6 +1661,7 @@ impl<'a, 'src: 'a> Compiler<'a, 'src> {
     // set this try block as the current
     let try_attributes = TryAttributes {
       scope_depth: self.scope_depth,
+      open: self.open_tries() + 1,
     };
     let enclosing_try = self.try_attributes.replace(try_attributes);
 
